@@ -17,6 +17,8 @@ ELEMENTWISE = {
     "jax.numpy.sqrt", "jax.numpy.sign", "jax.nn.softplus", "jax.numpy.log1p", "jax.numpy.expm1",
     "jax.numpy.where", "jax.numpy.clip", "jax.numpy.maximum", "jax.numpy.minimum", "jax.nn.leaky_relu",
     "jax.numpy.logical_and", "jax.numpy.asarray", "jax.numpy.square", "jax.lax.stop_gradient",
+    "jax.numpy.cosh", "jax.numpy.sinh", "jax.numpy.logical_or", "jax.numpy.logical_not", "jax.nn.sigmoid",
+    "jax.numpy.reciprocal", "jax.numpy.negative", "jax.numpy.isfinite", "jax.numpy.isnan",
 }
 REDUCTIONS = {"jax.numpy.sum", "jax.numpy.mean", "jax.numpy.prod", "jax.numpy.max", "jax.numpy.min"}
 
@@ -578,16 +580,22 @@ def rule_deriv(prog, rep, classes):
         return ("call", ("ext", "jax.numpy.log"), (), (("a", ("call", ("ext", "jax.numpy.abs"), (), (("a", mk_add_((C(1), ("matmul", U, psi)))),))),))
     from ..terms import mk_cmp
     test = mk_cmp("==", ("attr", SELF, "activation"), C("leaky_relu"))
-    cands = [("ite", test, lemma(psi_leaky), lemma(psi_tanh)), ("ite", test, lemma(psi_leaky2), lemma(psi_tanh))]
+    # tanh'(z) = 1 - tanh(z)^2 = cosh(z)^-2: the second spelling is the same derivative (whether it is numerically
+    # safe is C18's question, not this rule's)
+    psi_cosh = mm((mp(("call", ("ext", "jax.numpy.cosh"), (), (("a", z),)), C(-2)), w))
+    cands = [("ite", test, lemma(psi_leaky), lemma(psi_tanh)), ("ite", test, lemma(psi_leaky2), lemma(psi_tanh)),
+             ("ite", test, lemma(psi_leaky), lemma(psi_cosh)), ("ite", test, lemma(psi_leaky2), lemma(psi_cosh))]
     cands += [subst(cd, lambda s: ("ite", test, s[2], s[3]) if s[0] == "ite" and s[1] == test else None) for cd in cands]
     ok = False
     for cd in cands:
         # the implementation builds psi under the activation test and applies log|1 + u.psi| once
-        psi_l = psi_leaky if cd in cands[:1] else psi_leaky2
-        cd2 = bij.commute_rank1(lemma(("ite", test, psi_l, psi_tanh)), r1)
         cd = bij.commute_rank1(cd, r1)
-        if equal(l, cd) or equal(l, cd2):
+        if equal(l, cd):
             ok = True
+    for psi_l in (psi_leaky, psi_leaky2):
+        for psi_t in (psi_tanh, psi_cosh):
+            if not ok and equal(l, bij.commute_rank1(lemma(("ite", test, psi_l, psi_t)), r1)):
+                ok = True
     rep.check(ok, "C02.deriv", site, "_UnconditionalPlanar:logdet==log|1+u^.psi|",
               "psi = h'(w.x+b) w with h' = 1 - tanh^2 (tanh) / where(. < 0, slope, 1) (leaky relu), constrained u^",
               f"log-det is {show(l, 300)}")
